@@ -47,6 +47,22 @@ MUT = {
     "b12_avx_falls_to_reference": (AVX, "sse41::digest_block(state, block)", "sse41::digest_block(state, &block[..0])"),
     "b13_schedule_k_index": (AVX, "$schedule[$i] = _mm256_add_epi32($w3, _mm256_set1_epi32(K32[$i] as i32));", "$schedule[$i] = _mm256_add_epi32($w3, _mm256_set1_epi32(K32[$i + 1] as i32));"),
     "b_whitespace_comment": None,
+    # ---- (c) blake2/avx.rs, avx2.rs
+    "c1_gather_index": (BAVX, "_mm_unpacklo_epi64(m7, m2),\n                _mm_unpackhi_epi64(m4, m6),", "_mm_unpacklo_epi64(m7, m3),\n                _mm_unpackhi_epi64(m4, m6),"),
+    "c2_blake2s_blend_imm": (BAVX, "let t0 = _mm_blend_epi16(m1, m2, 0x0C);\n                    let t1 = _mm_slli_si128(m3, 4);", "let t0 = _mm_blend_epi16(m1, m2, 0x30);\n                    let t1 = _mm_slli_si128(m3, 4);"),
+    "c3_rot16_mask_byte": (BAVX, "let r16 = _mm_setr_epi8(2, 3, 4, 5, 6, 7, 0, 1, 10,", "let r16 = _mm_setr_epi8(2, 3, 4, 5, 6, 7, 1, 0, 10,"),
+    "c4_counter_sign_extend": (BAVX2, "_mm256_set_epi64x(0, -1i64, t[1] as i64, t[0] as i64)", "_mm256_set_epi64x(0, -1i64, t[1] as i64, t[0] as i32 as i64)"),
+    "c5_flag_lane": (BAVX, "_mm_set_epi64x(0, -1i64)", "_mm_set_epi64x(-1i64, 0)"),
+    "c6_avx2_diag_imm": (BAVX2, "a = _mm256_permute4x64_epi64(a, _MM_SHUFFLE(2, 1, 0, 3));", "a = _mm256_permute4x64_epi64(a, _MM_SHUFFLE(0, 3, 2, 1));"),
+    "c7_G_operand": (BAVX, "row3l = _mm_add_epi64(row3l, row4l);", "row3l = _mm_add_epi64(row3l, row4h);"),
+    "c8_round_order": (BAVX, "ROUND!(load8!());\n    ROUND!(load9!());\n    ROUND!(load0!());", "ROUND!(load9!());\n    ROUND!(load8!());\n    ROUND!(load0!());"),
+    "c9_store_offset": (BAVX, "_mm_store_si128(h.add(1), _mm_xor_si128(orig_a1, row1h));", "_mm_store_si128(h.add(2), _mm_xor_si128(orig_a1, row1h));"),
+    "c10_blake2s_add_width": (BAVX, "row1 = _mm_add_epi32(_mm_add_epi32(row1, $b), row2);", "row1 = _mm_add_epi64(_mm_add_epi32(row1, $b), row2);"),
+    "c11_avx2_rot63": (BAVX2, "_mm256_or_si256(_mm256_srli_epi64(v, 63), _mm256_add_epi64(v, v))", "_mm256_or_si256(_mm256_srli_epi64(v, 62), _mm256_add_epi64(v, v))"),
+    "c12_iv_offset": (BAVX, "let mut row4l = _mm_xor_si128(_mm_loadu_si128(iv.add(2)), _mm_loadu_si128(t));", "let mut row4l = _mm_xor_si128(_mm_loadu_si128(iv.add(3)), _mm_loadu_si128(t));"),
+    "c13_blake2s_flag_value": (BAVX, "_mm_set_epi32(0, -1i32, t[1] as i32, t[0] as i32)", "_mm_set_epi32(0, 1i32, t[1] as i32, t[0] as i32)"),
+    "c14_avx2_blend_macro_imm": (BAVX2, "_mm256_blend_epi32($a, $b, 0xF0)", "_mm256_blend_epi32($a, $b, 0x0F)"),
+    "c_whitespace_comment": None,
 }
 
 def sh(cmd, env=None, cwd=None):
